@@ -45,7 +45,8 @@ CHECK = Check(
     assumptions=[
         "max_x_position / max_y_position are scalars (documented type float; the analyzer reads them from "
         "evaluation_config_dict and a per-label list makes its constructor raise)",
-        "ground-truth uuids and estimate uuids are unique within a frame (rows are identified by uuid)",
+        "ground-truth uuids and estimate uuids are unique within a frame (rows are identified by uuid), except in the cases "
+        "classified ids_none / ids_shared, for which only the row / status accounting is decided",
         "positions 1e-6*(1+|coordinate|), yaw 1e-6 modulo 2 pi; error summaries 1e-9 relative; positions within 1e-6 of "
         "an area border and distances within 1e-9 of a selection bound are boundary cases",
         "the area of the GT row of a TP/FP pair may be the pair's (estimate's) area or the GT's own area",
@@ -141,6 +142,18 @@ def analyzer_cases(draw, tier="quick", histories=False):
             if fps and draw(st.integers(0, 2)) == 0:
                 g = fps[draw(st.integers(0, len(fps) - 1))]
                 g["p"] = [draw(st.sampled_from([-1.0, 1.0])) * (grid_x + draw(GEN.fl(1.0, 40.0))), g["p"][1], g["p"][2]]
+    if not histories and d["task"] in ("detection", "fp_validation") and draw(st.integers(0, 2)) == 0:
+        # detection / FP validation need no instance ids: ground truths without ids or with ids shared between annotations; rows can then
+        # not be told apart by uuid, so only the row / status accounting of such a case is checked (see _body)
+        how = draw(st.sampled_from(["none", "shared"]))
+        d["mgr"]["uuids"] = None
+        for f in d["frames"]:
+            f["crit"]["uuids"] = None
+            for i, o in enumerate(f["gt"]):
+                o["uuid"] = None if how == "none" else f"shared{i % 2}"
+            for o in f["est"]:
+                o["uuid"] = None
+        d["uuid_mode"] = how
     return {"case": d, "split": split, "nad": nad, "sel": sel}
 
 
@@ -480,6 +493,13 @@ def _body(ctx, d):
         for s_ in ("TP", "FP", "TN", "FN"):
             v = an.get_status_num(s_)
             ctx.require(v == cnt[s_], "num-properties", lambda: f"get_status_num({s_}) = {v}, table {cnt[s_]}")
+
+    if case.get("uuid_mode") in ("none", "shared"):
+        # rows are not identifiable by uuid: the accounting above (row pairs per frame as multisets, status counts, estimate /
+        # ground-truth row counts, num_* properties) is what is decided for this case
+        ctx.cls("ids_" + case["uuid_mode"])
+        ctx.mark_nontrivial(len(order) >= 3 and sum(1 for v in tot.values() if v) >= 2)
+        return
 
     # ---- row values (ego frame) ----------------------------------------------------------------------------------
     max_x = float(case["mgr"]["max_x"][0]) if case["mgr"]["kind"] == "xy" else 100.0
